@@ -233,7 +233,14 @@ func runCovers(obls []*Obligation, header string, timeout time.Duration) []*Obli
 			defer wg.Done()
 			defer func() { <-sem }()
 			r, _ := solve(o.CoverQuery(header), "cover_"+o.Name, timeout, false)
-			if r.Status != "sat" {
+			// only a definite "unsat" means the program point is unreachable under the assumptions;
+			// "unknown" (typical with quantified assumptions) is not evidence of vacuity
+			o.Cover = r.Status
+			if r.Status == "unsat" && debugCoverDir != "" {
+				os.MkdirAll(debugCoverDir, 0o755)
+				os.WriteFile(debugCoverDir+"/"+sanitize(o.Name)+".smt2", []byte(o.CoverQuery(header)), 0o644)
+			}
+			if r.Status == "unsat" {
 				mu.Lock()
 				vac = append(vac, o)
 				mu.Unlock()
@@ -243,3 +250,7 @@ func runCovers(obls []*Obligation, header string, timeout time.Duration) []*Obli
 	wg.Wait()
 	return vac
 }
+
+func init() { debugCoverDir = os.Getenv("STICKVC_COVERDIR") }
+
+var debugCoverDir string
